@@ -65,7 +65,7 @@ def post_add_edge(self, node1, node1_dir, node2, node2_dir, overlap, tags):
 
 def setup(ctx):
     from gaftools import gfa
-    M.attach(gfa.GFA, "add_edge", post=post_add_edge)
+    M.attach(gfa.GFA, "add_edge", post=post_add_edge, optional=True)
 
 
 def decorate(g, rng, sit, s_tags=True):
